@@ -23,6 +23,17 @@ CHECKS = [
      "note": "Trusted: TLC, the harness projection between DataFrames and TLA+ tuples, JSON encoding. Premise: sorted "
              "positive-width rows."},
 ]
+CHECKS.append(
+    {"id": "C10", "level": "model_checking",
+     "technique": "TLA+ system model (Pipeline.tla): TLC-generated behaviours executed against the real code in fresh processes, recorded traces validated by TLC",
+     "design_ref": "DESIGN.md section 8 C10",
+     "text": "Pipeline.tla models a session (calls on shared argument objects, RNG perturbations, kernel reseeding, pool fan-out, "
+             "ensure_path + write); TLC checks Deterministic/ArgsUntouched/PoolOrder/NoOverwrite on the model, generates all short "
+             "behaviours and simulated longer ones, each is executed against the real code in a fresh process and the recorded "
+             "trace (content ids before/after, result ids, directory listings) is validated by TLC against the model's contract.",
+     "note": "Trusted: TLC, sha1 content digests as the equality oracle, fork() isolation. Menu of 47 concrete calls; cbs/flasso (R) "
+             "and coverage (see C09) not in the menu. Pool interleavings are explored in the model only; the real pool is exercised "
+             "with 1/2/3/16 workers."})
 
 _ALL = [f"C{n:02d}" for n in range(1, 21)]
 _claimed = {c["id"] for c in CHECKS}
